@@ -13,6 +13,7 @@ import (
 	"sort"
 	"strings"
 
+	"github.com/rhysd/actionlint"
 	"gopkg.in/yaml.v3"
 
 	"verifharness/hx"
@@ -222,7 +223,10 @@ func newBase(name string, channel int, src []byte) *base {
 	}
 	b := &base{name: name, channel: channel, src: src}
 	walk(doc.Content[0], nil, "", false, &b.positions)
-	if channel == chWorkflow {
+	// positions are attributed to value parsers only in documents the parser
+	// accepts without a diagnostic (in a document with, say, a duplicated job
+	// key the section is skipped and the position is dead)
+	if _, errs := actionlint.Parse(src); channel == chWorkflow && len(errs) == 0 {
 		for i, p := range b.positions {
 			if !p.isKey && whichFor(p.keyPath) != "" {
 				b.kpos = append(b.kpos, i)
@@ -425,11 +429,14 @@ func buildSubs() []subst {
 	// size and depth
 	ss = append(ss, subst{name: "seq-depth-200", big: true, make: func(_, _ *yaml.Node) *yaml.Node { return nest(200, false) }})
 	ss = append(ss, subst{name: "map-depth-200", big: true, make: func(_, _ *yaml.Node) *yaml.Node { return nest(200, true) }})
-	ss = append(ss, subst{name: "scalar-20k", big: true, make: func(_, _ *yaml.Node) *yaml.Node { return sc("!!str", strings.Repeat("a${{ x }}", 2200), 0) }})
+	// (a filter pattern of n bytes with n/9 offending characters costs O(n^2): one diagnostic per character, each
+	// carrying the pattern; 4.5 KB take about 0.5 s, 36 KB about 30 s — sizes are chosen to stay far below the limit)
+	ss = append(ss, subst{name: "scalar-4k", big: true, make: func(_, _ *yaml.Node) *yaml.Node { return sc("!!str", strings.Repeat("a${{ x }}", 500), 0) }})
+	ss = append(ss, subst{name: "scalar-60k-plain", big: true, make: func(_, _ *yaml.Node) *yaml.Node { return sc("!!str", strings.Repeat("a", 60000), 0) }})
 	ss = append(ss, subst{name: "digits-5k", big: true, make: func(_, _ *yaml.Node) *yaml.Node { return sc("!!int", strings.Repeat("9", 5000), yaml.TaggedStyle) }})
-	ss = append(ss, subst{name: "seq-2000", big: true, make: func(_, _ *yaml.Node) *yaml.Node {
+	ss = append(ss, subst{name: "seq-1000", big: true, make: func(_, _ *yaml.Node) *yaml.Node {
 		n := &yaml.Node{Kind: yaml.SequenceNode, Tag: "!!seq", Style: yaml.FlowStyle}
-		for i := 0; i < 2000; i++ {
+		for i := 0; i < 1000; i++ {
 			n.Content = append(n.Content, sc("!!str", "a", 0))
 		}
 		return n
@@ -547,7 +554,7 @@ func nodeStream(name string, pl *plan, ch int, ts []triple) *Stream {
 			return c
 		}
 		c.Data = data
-		if ch == chWorkflow && t.op == 0 && !pos.isKey && !s.big {
+		if ch == chWorkflow && t.op == 0 && !pos.isKey && !s.big && len(b.kpos) > 0 {
 			if w := whichFor(pos.keyPath); w != "" {
 				c.K = &KInfo{Which: w, Path: pos.path}
 			}
@@ -626,6 +633,7 @@ func (pl *plan) build() {
 	}
 	pl.streams = append(pl.streams, exprEnumStream(maxLen))
 	pl.streams = append(pl.streams, exprRandStream(pl.seed, nrand))
+	pl.streams = append(pl.streams, exprTypedStream())
 	// (iii) byte level, all four channels
 	per := 70
 	if !quick {
@@ -714,7 +722,8 @@ var exprTokens = []string{"github", "github.event", ".", "..", "*", ".*", "[", "
 	"'", "''", "'a'", "'{0}'", "'{0} {1}'", "'{'", "'{0'", "'}}'", "0", "1", "-1", "0x", "0xff", "0o7", "1e", "1e+5", "1e400", "1.", ".5", "1_0", "-", "+", "true", "false", "null", "NaN", "Infinity",
 	"fromJSON(", "fromjson('", "toJSON(", "format(", "format('{0}',", "contains(", "startsWith(", "endsWith(", "join(", "hashFiles(", "success()", "always()", "failure()", "cancelled()",
 	"matrix", "matrix.os", "steps", "steps.a.outputs.b", "needs", "needs.j.outputs", "inputs", "secrets", "env", "vars", "job", "runner", "strategy", "jobs", "github.event.issue.title", "github.event.pull_request.head.ref",
-	"github['event']", "['", "']", "[0]", "[*]", "}}", "${{", "}", "{", "#", "\\", "\"", "\n", "\t", " ", "  ", "\x00", "\xff", "é", "日本", "\u2028", "$", "%", "@", "~", "^", "`", ";", ":", "?"}
+	"github['event']", "['", "']", "[0]", "[*]", "}}", "${{", "}", "{", "#", "\\", "\"", "\n", "\t", " ", "  ", "\x00", "\xff", "é", "日本", "\u2028", "$", "%", "@", "~", "^", "`", ";", ":", "?", "\r", "\r\n", "\v", "\f",
+	"fromJSON('[1,2]')", "fromJSON('{\"a\":[1,null,true,\"x\",{}]}')", "fromJSON('null')", "github.event.commits", "steps.*.outputs.*", "needs.*.result", "format('{0}{1}', 1)", "contains(github.event.labels.*.name, 'x')"}
 
 func exprRandStream(seed uint64, n int) *Stream {
 	return &Stream{Name: "expr-rand", N: n, Get: func(i int) *Case {
@@ -751,6 +760,48 @@ func exprRandStream(seed uint64, n int) *Stream {
 		}
 		s := sb.String()
 		return &Case{Stream: "expr-rand", Idx: i, Channel: chWorkflow, Data: exprWorkflow(s), Desc: fmt.Sprintf("random expression text %q", trunc(s, 200))}
+	}}
+}
+
+// operands of every static type the checker knows, combined with every
+// operator, postfix form and built-in function: reaches every arm of the type
+// switches of expr_sema.go / expr_type.go
+var typedOperands = []string{"null", "true", "1", "1.5", "0xff", "'s'", "''", "fromJSON('[1,2]')", "fromJSON('[[\"a\"]]')", "fromJSON('{\"a\":{\"b\":null}}')",
+	"fromJSON('null')", "github", "env", "steps", "matrix", "github.event", "github.event.commits", "steps.*.outputs", "github.event.foo.*.bar", "secrets.x", "inputs", "vars", "needs", "job.services", "strategy", "runner"}
+
+var typedOps = []string{"==", "!=", "<", "<=", ">", ">=", "&&", "||"}
+
+var typedFuncs = []string{"contains", "startsWith", "endsWith", "format", "join", "toJSON", "fromJSON", "hashFiles", "success", "always", "cancelled", "failure", "nosuchfunc", "FORMAT"}
+
+func exprTypedStream() *Stream {
+	var exprs []string
+	o := typedOperands
+	for _, l := range o {
+		for _, op := range typedOps {
+			for _, r := range o {
+				exprs = append(exprs, l+" "+op+" "+r)
+			}
+		}
+		exprs = append(exprs, "!"+l, "("+l+")", l+".a", l+".*", l+".*.a", l+"[0]", l+"['a']", l+"[*]", l+".a.b.c", "!!"+l)
+		for _, r := range o {
+			exprs = append(exprs, l+"["+r+"]")
+		}
+	}
+	for _, f := range typedFuncs {
+		exprs = append(exprs, f+"()")
+		for _, a := range o {
+			exprs = append(exprs, f+"("+a+")")
+			for _, b := range o {
+				exprs = append(exprs, f+"("+a+", "+b+")")
+			}
+			exprs = append(exprs, f+"('{0} {1} {2}', "+a+", 1, "+a+")", f+"("+a+", "+a+", "+a+", "+a+")")
+		}
+	}
+	for _, fmtS := range []string{"'{0}'", "'{1}'", "'{'", "'{0'", "'}'", "'{{0}}'", "'{-1}'", "'{99999999999999999999}'", "'{0}{0}{0}'", "'{a}'", "''"} {
+		exprs = append(exprs, "format("+fmtS+")", "format("+fmtS+", 1)", "format("+fmtS+", 1, 2)")
+	}
+	return &Stream{Name: "expr-typed", N: len(exprs), Get: func(i int) *Case {
+		return &Case{Stream: "expr-typed", Idx: i, Channel: chWorkflow, Data: exprWorkflow(exprs[i]), Desc: fmt.Sprintf("typed expression %q in run:, if: and if: ${{ }}", exprs[i])}
 	}}
 }
 
